@@ -27,7 +27,7 @@ MANIFEST = dict(
          "GeckoShell.do_snapshot + GeckoCmd.do_logfile + GeckoSnapshot.parse_log_file, against real re.search per expression, "
          "and of pyReprBytes/litEval against CPython EXHAUSTIVELY on all 256 bytes and all 65 536 ordered byte pairs. "
          "Enumeration on the implementation (not a theorem): all 34 shipped snapshot files are parsed, loaded into the real "
-         "GeckoSimulator and served to a real async and a real threaded-class client; the client block equals the parsed bytes. Traffic logs in segmentations from 4 to 255 bytes and uneven ones. Session 5: the identity a client learns through the real version / channel / config-file exchanges (firmware versions, platform, config and log table versions) equals the snapshot's, for every shipped record (8 of them have differing config and log versions).",
+         "GeckoSimulator and served to a real async and a real threaded-class client; the client block equals the parsed bytes. Traffic logs in segmentations from 4 to 255 bytes and uneven ones. Session 5: the identity a client learns through the real version / channel / config-file exchanges (firmware versions, platform, config and log table versions) equals the snapshot's, for every shipped record (8 of them have differing config and log versions). Round 15: the simulator at reliability 0.5 with a scripted random.random losing exactly one datagram (each of the first fifteen draws in turn) - the client ends with the loaded snapshot; blocks carrying the protocol's own markup in the traffic-log family (full log: known finding D18 for a closing tag inside a segment's data; records of whole datagrams only: must reassemble).",
     note="Trusted: Lean kernel; CPython's bytes.__repr__, ast.literal_eval, re and int() are modelled and validated by "
          "correspondence, not verified; the model's character classes are ASCII (SafeName requires printable ASCII names); "
          "the serving of shipped snapshots is an exhaustive enumeration of a finite set on the implementation "
@@ -383,6 +383,28 @@ def real_traffic_log(cap, sim, block):
     return cap.text(), ok, got
 
 
+def closing_tag_inside_a_segment(block, size=39):
+    return any(b"</DATAS>" in block[i:i + size] for i in range(0, len(block), size))
+
+
+def framed_records_only(cap, block):
+    """parse the captured traffic log again without the records of re-dispatched packet CONTENT (`Received b'STATV..`)"""
+    import re as _re
+    text = cap.text()
+    kept = [l for l in text.splitlines(True) if not _re.search(r"Received b['\"]STATV", l)]
+    path = cap.path + ".framed"
+    with open(path, "w") as f:
+        f.writelines(kept)
+    try:
+        ans, snaps, exc = real_parse_file(path)
+    finally:
+        os.unlink(path)
+    if exc is not None:
+        return True, f"{type(exc).__name__}: {exc}"
+    b = snaps[-1].bytes if snaps else b""
+    return b != block, {"len_transferred": len(block), "len_reassembled": len(b), "records_dropped": len(text.splitlines()) - len(kept)}
+
+
 def segmented_traffic_log(cap, block, sizes):
     """a traffic log of a transfer in ANOTHER segmentation than the simulator's 39 bytes: each STATV datagram is built by the real
     response constructor, framed, and received by a real (unstarted) client socket, whose own DEBUG record is what lands in the log.
@@ -608,6 +630,15 @@ def run(ctx):
         if sim is not None:
             tblocks = [("both-quotes", bytes([0x22]) + bytes(1023)), ("brackets", bytes([0x5b, 0x5d]) + bytes(1022)),
                        ("zero", bytes(1024)), ("cycle", bytes(i % 256 for i in range(1024)))]
+            # blocks carry free text (file names ...): the protocol's own markup inside the payload of a segment
+            def with_text(*pieces):
+                b = bytearray(i % 7 for i in range(1024))
+                for at, txt in pieces:
+                    b[at:at + len(txt)] = txt
+                return bytes(b)
+            tblocks += [("markup:end-of-data", with_text((100, b"</DATAS>"))),
+                        ("markup:tags", with_text((50, b"<DATAS>STATV"), (130, b"</DATAS></PACKT>"), (300, b"</PACKT><PACKT><SRCCN>"), (700, b"</DATAS>"), (1016, b"</DATAS>"))),
+                        ("markup:packet", with_text((200, b"</DATAS></PACKT><PACKT><SRCCN>x</SRCCN><DESCN>y</DESCN><DATAS>STATV")))]
             tblocks += [("shipped:" + b, blk) for b, blk in shipped_blocks if len(blk) == 1024][: (6 if ctx.quick else 40)]
             for i in range(6 if ctx.quick else 120):
                 tblocks.append((f"random", bytes(rng.randrange(256) for _ in range(1024))))
@@ -651,11 +682,19 @@ def run(ctx):
                 elif not snaps or snaps[-1].bytes != blk:
                     b = snaps[-1].bytes if snaps else b""
                     i = next((i for i in range(min(len(b), len(blk))) if b[i] != blk[i]), min(len(b), len(blk)))
-                    ctx.violation("traffic:wrong-bytes", inp, "the connection record reassembles to the transferred block",
+                    ctx.violation("traffic:wrong-bytes" + (":closing-tag-inside-segment-data" if closing_tag_inside_a_segment(blk) else ""), inp,
+                                  "the connection record reassembles to the transferred block",
                                   {"first_diff_at": i, "len_transferred": len(blk), "len_reassembled": len(b), "snapshots": len(snaps or [])})
                 else:
                     nontrivial.add(("traffic", label if not label.startswith("random") else hash(blk) % 10 ** 6))
                 ctx.hist("traffic_outcomes", "ok" if exc is None and snaps and snaps[-1].bytes == blk else "fails")
+                # the same log with the records of WHOLE datagrams only (what the Lean model of a traffic log holds; the socket also logs
+                # the content of a packet when it re-dispatches it): reassembly must not depend on what the segment data holds
+                fbad, fobs = framed_records_only(cap, blk)
+                ctx.count("evaluations")
+                if fbad:
+                    ctx.violation("traffic-framed-records:wrong-bytes", {"kind": "traffic", "block": blk.hex(), "framed_only": True},
+                                  "the records of the datagrams reassemble to the transferred block", fobs)
                 if is_model_text(text):
                     op("parse " + hxs(text), ans, ("parse-traffic", label))
             sim.close()
@@ -783,6 +822,7 @@ def run(ctx):
     for i in (0, 1, 2):
         if i < len(ops):
             ctx.sample({"op": ops[i][:120], "impl": impl[i][:120]})
+    check_unreliable_simulator(ctx)
     ctx.cov["distinct_nontrivial"] = len(nontrivial)
     ctx.cov["exhaustive"] = False
     ctx.cov["exhaustive_parts"] = {"byte_pairs_repr_literal_eval": True, "shipped_snapshot_files": True, "writer_inputs": False}
@@ -803,9 +843,37 @@ def run(ctx):
     ]
 
 
+def check_unreliable_simulator(ctx, only=None):
+    """the simulator's `reliability` setting below 1: it loses whole datagrams, it never serves different bytes. A real blocking client
+    session per shipped snapshot (quick: three), `random.random` scripted so that exactly one datagram is lost - each of the first
+    answers in turn, so every segment of the first status block answer once: the client ends with the loaded snapshot's block"""
+    import bsessions
+    files = sorted(x.name for x in (REPO / "tests" / "snapshots").glob("*.snapshot"))
+    files = files if ctx.tier == "thorough" else files[::max(1, len(files) // 3)][:3]
+    for f in files:
+        for d in range(1, 16):
+            if only is not None and only != [f, d]:
+                continue
+            try:
+                r = bsessions.unreliable_simulator(str(REPO / "tests" / "snapshots" / f), d)
+            except Exception as e:  # noqa
+                r = {"raised": f"{type(e).__name__}: {e}"}
+            ctx.count("evaluations")
+            ctx.hist("unreliable_simulator", "served" if r.get("connected") else "not-connected")
+            if not r.get("connected") or r.get("differs_at"):
+                ctx.violation("unreliable-simulator:served-changed", {"kind": "unreliable-simulator", "case": [f, d]},
+                              "the client connects (asking again for what was lost) and holds the loaded snapshot's bytes", r)
+                return
+
+
 # ----------------------------------------------------------------------------------------------- replay
 def replay(inp):
     kind = inp.get("kind")
+    if kind == "unreliable-simulator":
+        from common import Ctx
+        c = Ctx("C19", "quick", 0)
+        check_unreliable_simulator(c, only=inp["case"])
+        return bool(c.violations), c.violations[0]["observed"] if c.violations else "served unchanged"
     if kind == "snapshot":
         block = bytes.fromhex(inp["block"])
         hdr = dict(inp["hdr"])
@@ -831,6 +899,8 @@ def replay(inp):
             with Capture() as cap:
                 text, ok, got = real_traffic_log(cap, sim, block)
                 ans, snaps, exc = real_parse_file(cap.path)
+                if inp.get("framed_only"):
+                    return framed_records_only(cap, block)
         finally:
             sim.close()
         if exc is not None:
